@@ -52,6 +52,7 @@ EXPECTED_PROBES = [
 
 def setup():
     Z.setup_dns()
+    Z.install_commit_fault()
     import dns.versioned
     import dns.zone
     import dns.btreezone
@@ -127,11 +128,14 @@ def gen_case(seed, tier):
             ops = [Z.gen_op(rng, names, types, allow_bad=False) for _ in range(rng.choice([0, 1, 1, 2, 3]))]
             if rng.random() < 0.6:
                 ops.append({"o": "serial", "v": 1, "rel": True, "n": "@", "nf": "abs"})
-            steps.append({"s": "write", "ops": ops, "end": rng.choice(["commit", "commit", "commit", "rollback", "exc"])})
+            steps.append({"s": "write", "ops": ops, "end": rng.choice(["commit", "commit", "commit", "commit", "rollback", "exc", "commit_fault"])})
         elif r < 0.83:
             steps.append({"s": "maxv", "n": rng.choice([1, 2, 3, 5, None])})
         elif r < 0.92:
-            steps.append({"s": "policy", "kind": rng.choice(["default", "never", "keep_ge", "prune_odd", "always"]), "k": rng.choice([0, 1, 2, 3])})
+            steps.append({"s": "policy", "kind": rng.choice(["default", "never", "keep_ge", "prune_odd", "always", "toggle", "toggle"]), "k": rng.choice([0, 1, 2, 3])})
+            if rng.random() < 0.5:
+                # the answer of a policy may change without any zone event (retention by age, by configuration)
+                steps.append({"s": "toggle"})
         elif r < 0.97:
             steps.append({"s": "hostile", "h": rng.randrange(8)})
         else:
@@ -199,6 +203,7 @@ class _World:
         self.b = Z.Bench(cfg["kind"], cfg["relativize"], pruning_policy=pol)
         self.zone = self.b.zone
         # model: all versions ever (id -> snapshot), retained ids (ordered), readers
+        self.toggle = False
         self.all_versions = {}
         self.derived = {}
         self.serial_of = {}
@@ -418,11 +423,42 @@ class _World:
                 elif st["end"] == "exc":
                     self.res.faults.inc("writer_exception")
                     raise Z.Planned("abort")
+                elif st["end"] == "commit_fault":
+                    # the commit itself fails while the new version is built: nothing is published, the
+                    # transaction has ended, trying again is refused
+                    import dns.transaction
+
+                    real_changed = txn.changed()
+                    Z.COMMIT_FAULT["armed"] = True
+                    try:
+                        txn.commit()
+                        committed = True  # (nothing had to be frozen: an ordinary commit)
+                    except MemoryError:
+                        self.res.faults.inc("allocation_failure_inside_commit")
+                        try:
+                            txn.commit()
+                        except dns.transaction.AlreadyEnded:
+                            pass
+                        except Exception as e:  # noqa: BLE001
+                            raise Violation("C11:failed-commit-retry", f"commit() after a failed commit raised {type(e).__name__}: {e}")
+                        else:
+                            raise Violation("C11:failed-commit-retry", "commit() after a failed commit was accepted")
+                    finally:
+                        Z.COMMIT_FAULT["armed"] = False
                 else:
                     committed = True
                     real_changed = txn.changed()
         except Z.Planned:
             committed = False
+        except Violation:
+            raise
+        except Exception as e:  # noqa: BLE001
+            v = Z.first_violation_in_context(e)
+            if v is not None:
+                raise v
+            if Z.raised_in_repo(e):
+                raise Violation("C11:unexpected-exception", f"leaving a write transaction (end={st['end']}) raised {type(e).__name__}: {e}")
+            raise
         if st["end"] == "rollback":
             self.res.faults.inc("writer_rollback")
         # the writer goes on using the objects it handed to the transaction
@@ -451,7 +487,11 @@ class _World:
             z.set_max_versions(n)
         else:
             kind = st["kind"]
-            self.policy = _policy_fn(kind, st["k"], self.retained[-1])
+            if kind == "toggle":
+                # keeps everything while the switch is off, prunes everything it may once it is on
+                self.policy = lambda vid, count: self.toggle
+            else:
+                self.policy = _policy_fn(kind, st["k"], self.retained[-1])
             self.policy_name = f"{kind}({st['k']})"
             if kind == "default":
                 z.set_pruning_policy(None)
@@ -880,6 +920,9 @@ def run_case(case, keep_log=False):
                 w.step_hostile(st)
             elif s == "zone_mut":
                 w.step_zone_mut(st)
+            elif s == "toggle":
+                w.toggle = not w.toggle  # (no zone call: the next pruning event sees the new answer)
+                res.faults.inc("policy_answer_changed_without_zone_event")
             w.check(f"after step {i} ({s})")
             log.add(i, s, tuple(w.retained), tuple(v for _, v in w.readers))
         # close everything: retention must collapse to what the policy allows
